@@ -79,7 +79,7 @@ func run(c *vk.Ctx) {
 		modes = append(modes, "mixed:2", "mixed:3")
 	}
 	nCases := c.Pick(40, 300)
-	sem.RunCases(c, base, "mem", nCases, gen.Options{WideEvery: 4, AlgebraEvery: 5, HierarchyEvery: 6}, 4, 8, func(i int, r *rand.Rand, p *sem.Prepared, contextual []*openfgav1.TupleKey) {
+	sem.RunCases(c, base, "mem", nCases, gen.Options{WideEvery: 4, AlgebraEvery: 5, HierarchyEvery: 3}, 4, 8, func(i int, r *rand.Rand, p *sem.Prepared, contextual []*openfgav1.TupleKey) {
 		oneCase(c, i, r, p, contextual, servers, modes)
 	})
 	for name, n := range drive.ForcedCounts() {
